@@ -148,6 +148,8 @@
        (<= 0 r) (<= r 1114111)
        (=> (and (> (gs.len s) 0) (< (gs.at s 0) 128)) (and (= sz 1) (= r (gs.at s 0))))
        (=> (and (> (gs.len s) 0) (>= (gs.at s 0) 128)) (>= r 128))
+       (=> (and (= sz 1) (>= r 128)) (= r 65533))
+       (=> (= r 65533) (or (= sz 0) (= sz 1) (= sz 3)))
        (=> (and (> (gs.len s) 0) (isbound (sbase s) (slo s)) (< (ridx (sbase s) (slo s)) (nr (sbase s))))
            (and (= (+ (slo s) sz) (roff (sbase s) (+ (ridx (sbase s) (slo s)) 1)))
                 (= r (runit (sbase s) (ridx (sbase s) (slo s))))))))
